@@ -16,11 +16,13 @@ struct timeval usecs_to_timeval(uint64_t usecs)
 __CPROVER_requires(1)
 __CPROVER_ensures(__CPROVER_return_value.tv_usec >= 0 && __CPROVER_return_value.tv_usec < 1000000)          /* normalised */
 __CPROVER_ensures(__CPROVER_return_value.tv_sec >= 0 && __CPROVER_return_value.tv_sec <= 18446744073709ll)
-__CPROVER_ensures((uint64_t)__CPROVER_return_value.tv_sec * 1000000 + (uint64_t)__CPROVER_return_value.tv_usec == usecs)
+__CPROVER_ensures((unsigned __int128)__CPROVER_return_value.tv_sec * 1000000 + (unsigned __int128)__CPROVER_return_value.tv_usec == usecs)   /* exact: 128-bit, no wrap-around */
 __CPROVER_assigns();
 
+extern long g_tv_sec, g_tv_usec;      /* ghost copies of the argument (so that a counterexample carries it) */
 uint64_t timeval_to_usecs(struct timeval* tv)
 __CPROVER_requires(__CPROVER_is_fresh(tv, sizeof(struct timeval)))
+__CPROVER_requires(tv->tv_sec == g_tv_sec && tv->tv_usec == g_tv_usec)
 __CPROVER_requires(TV_IN_DOMAIN(tv->tv_sec, tv->tv_usec))
 __CPROVER_ensures(__CPROVER_return_value == (uint64_t)tv->tv_sec * 1000000 + (uint64_t)tv->tv_usec)
 __CPROVER_ensures(__CPROVER_return_value <= 9223372036854775807ull)
